@@ -724,13 +724,14 @@ class X12SegmentDataNode(X12DataNode):
 
     def select(self, x12_path_str):
         """
-        Segment nodes have no sub-nodes so return None
+        Segment nodes have no sub-nodes; a path that climbs with ../ is
+        resolved from the parent like in exists and count
         @param x12_path_str: Relative X12 path - 2400/2430
         @type x12_path_str: string
         @return: Iterator on the matching sub-nodes, relative to the instance.
         @rtype: L{node<x12context.X12DataNode>}
         """
-        return []
+        return X12DataNode.select(self, x12_path_str)
 
     def _select(self, x12path):
         """
